@@ -1141,7 +1141,7 @@ class Checker:
             if 'impl' not in d:
                 raise RuntimeError('driver: %r for %r' % (r[:300], line[:300]))
             wf = dict(x.split(':') for x in d['wf'].split(','))
-            if wf.get('scan') != '1' or wf.get('nodup') != '1':
+            if any(wf.get(k) != '1' for k in ('scan', 'shared', 'text', 'nodup')):
                 raise RuntimeError('generator produced a workbook outside the domain (%s): %s'
                                    % (d['wf'], json.dumps(wb)[:400]))
             found += self.check_case(wb, ig, path, dec_impl(d['impl']), dec_spec(d['spec']), label)
@@ -1387,7 +1387,60 @@ def shrink(checker_factory, wb, ignore, what):
     return cur
 
 
+def _run_chunk(args):
+    """one worker: its own random stream, temp dir, Result; returns the picklable parts"""
+    import random
+    seed, idx, nbooks, tier, widen, known, prop = args
+    logging.disable(logging.CRITICAL)
+    warnings.simplefilter('ignore')
+
+    class C:
+        pass
+    ctx = C()
+    ctx.tier, ctx.widen, ctx.known, ctx.replay = tier, widen, known, None
+    ctx.rng = random.Random(seed * 1000003 + 11 + 7919 * (idx + 1))
+    ctx.driver = common.Driver(prop)
+    res = Result()
+    thorough = tier == 'thorough' or widen
+    with tempfile.TemporaryDirectory(prefix='c11-') as tmp:
+        chk = Checker(ctx, res, tmp)
+        gen = Gen(ctx.rng)
+        shrunk = 0
+        for i in range(nbooks):
+            wb = json.loads(json.dumps(gen.workbook()))
+            vs = chk.check_workbook(wb, ignore_lists(wb, ctx.rng, thorough), label='gen%d.%d' % (idx, i))
+            if vs and shrunk < 2:
+                shrunk += 1
+                v = vs[0]
+                silent = Result()
+                small = shrink(lambda: Checker(ctx, silent, tmp), v['input']['workbook'], v['input']['ignore'],
+                               v['what'])
+                if small != v['input']['workbook']:
+                    before = len(res.violations)
+                    chk.check_workbook(small, [v['input']['ignore']], label='shrunk')
+                    res.violations[:] = res.violations[before:] + res.violations[:before]
+            if len(res.violations) > 40:
+                break
+    return {'evaluations': res.evaluations, 'nontrivial': res.nontrivial, 'samples': res.samples,
+            'violations': res.violations, 'known': res.known, 'drift': res.drift,
+            'distribution': res.distribution}
+
+
+def _merge(res, part):
+    res.evaluations += part['evaluations']
+    res.nontrivial |= part['nontrivial']
+    for x in part['samples']:
+        res.sample(x)
+    res.violations += part['violations']
+    for k, v in part['known'].items():
+        res.known.setdefault(k, []).extend(v)
+    res.drift += part['drift']
+    for k, n in part['distribution'].items():
+        res.count(k, n)
+
+
 def run(ctx):
+    import multiprocessing
     import xlcalculator  # noqa: F401
     logging.disable(logging.CRITICAL)
     warnings.simplefilter('ignore')
@@ -1421,24 +1474,17 @@ def run(ctx):
         for label, wb in fixed_workbooks():
             wb = json.loads(json.dumps(wb))
             chk.check_workbook(wb, ignore_lists(wb, ctx.rng, thorough), label=label)
-        gen = Gen(ctx.rng)
-        shrunk = 0
-        for i in range(nbooks):
-            wb = json.loads(json.dumps(gen.workbook()))
-            vs = chk.check_workbook(wb, ignore_lists(wb, ctx.rng, thorough), label='gen%d' % i)
-            if vs and shrunk < 2:
-                shrunk += 1
-                v = vs[0]
-                silent = Result()
-                small = shrink(lambda: Checker(ctx, silent, tmp), v['input']['workbook'], v['input']['ignore'],
-                               v['what'])
-                if small != v['input']['workbook']:
-                    # report the shrunk input first
-                    before = len(res.violations)
-                    chk.check_workbook(small, [v['input']['ignore']], label='shrunk')
-                    res.violations[:] = res.violations[before:] + res.violations[:before]
-            if len(res.violations) > 40:
-                break
+    workers = int(os.environ.get('C11_WORKERS', '0')) or (12 if thorough else 4)
+    nchunks = workers * (4 if thorough else 1)
+    sizes = [nbooks // nchunks + (1 if i < nbooks % nchunks else 0) for i in range(nchunks)]
+    jobs = [(ctx.seed, i, n, ctx.tier, ctx.widen, ctx.known, ctx.prop) for i, n in enumerate(sizes) if n]
+    if workers <= 1:
+        parts = [_run_chunk(j) for j in jobs]
+    else:
+        with multiprocessing.get_context('fork').Pool(workers) as pool:
+            parts = pool.map(_run_chunk, jobs, chunksize=1)
+    for part in parts:
+        _merge(res, part)
     res.count('workbooks', nbooks)
     if res.drift:
         res.notes.append('%d model/implementation differences where the code still meets Spec' % len(res.drift))
